@@ -168,8 +168,20 @@ class MenuConfigState:
         if not parent:
             parent = self.kconf.top_node
         self.shown = self.shown_nodes(parent)
-        self.sel_node_i = self.shown.index(self.cur_menu)
+        if self.cur_menu in self.shown:
+            self.sel_node_i = self.shown.index(self.cur_menu)
+        else:
+            # The menu being left is no longer shown in its parent (a change made
+            # inside it made it invisible): fall back to the first row.
+            self.sel_node_i = 0
         self.cur_menu = parent
+
+        if not self.shown:
+            # Nothing left to show in the parent either
+            if parent is not self.kconf.top_node:
+                return self.leave_menu()
+            self.show_all = True
+            self.shown = self.shown_nodes(parent)
 
         return True
 
@@ -416,9 +428,19 @@ class MenuConfigState:
     # --- Internal ---
 
     def _update_menu(self) -> None:
-        sel_node = self.shown[self.sel_node_i]
+        sel_node = self.shown[self.sel_node_i] if self.shown else None
         self.shown = self.shown_nodes(self.cur_menu)
-        self.sel_node_i = self.shown.index(sel_node)
+        if sel_node in self.shown:
+            self.sel_node_i = self.shown.index(sel_node)
+        elif self.shown:
+            # The change made the selected row itself invisible: stay on the nearest row.
+            self.sel_node_i = max(0, min(self.sel_node_i, len(self.shown) - 1))
+        else:
+            # The change emptied the current menu
+            self.sel_node_i = 0
+            if not self.leave_menu():
+                self.show_all = True
+                self.shown = self.shown_nodes(self.cur_menu)
 
     @staticmethod
     def _parent_menu(node: MenuNode) -> Optional[MenuNode]:
